@@ -47,6 +47,15 @@ def cut(stream: bytes, cuts) -> list[bytes]:
 
 
 def as_type(b: bytes, k: int):
+    """bytes-like objects of every flavour, including views whose len() is an ITEM count, not a byte count"""
+    k %= 7
+    if k == 4 and len(b) % 2 == 0 and b:
+        return memoryview(bytearray(b)).cast("H")
+    if k == 5 and len(b) % 4 == 0 and b:
+        return memoryview(bytearray(b)).cast("I")
+    if k == 6:
+        import array
+        return array.array("B", b)
     return (bytes(b), bytearray(b), memoryview(bytearray(b)), memoryview(b))[k % 4]
 
 
@@ -161,7 +170,7 @@ def run_impl(frames, tail, cuts, tyk):
             obj += b"\xee"
         elif isinstance(obj, memoryview):
             base = obj.obj
-            if isinstance(base, bytearray):
+            if isinstance(base, bytearray) and obj.format == "B":
                 base[:] = b"\xee" * len(base)
         per.append((conn.delivered[before:], fh.err_class(conn.errors[0]) if conn.errors else "none", r))
     return chunks, per
